@@ -223,6 +223,19 @@ def vec_paths(b, vec_local):
             return ("push", z[1] if z[0] == "const" else None)
         if d.endswith("BinWrite::write_options"):
             return ("write",)
+        if re.search(r"Vec::<T(, A)?>::resize$", d) and len(node["args"]) == 3:
+            z = b.origin(node["args"][2])
+            tgt = b.origin(node["args"][1])
+            if z[0] == "const" and z[1] == 0:
+                x = f0(tgt)
+                if x[0] == "const":
+                    return ("resize_zeros", "to", x[1] if x[1] is not None else x[2])
+                if x[0] == "bin" and x[1] == "BitAnd":
+                    s_, m_ = f0(x[2]), x[3]
+                    if s_[0] == "bin" and s_[1] in ("AddWithOverflow", "Add") and is_len_of(s_[2], V) and m_[0] == "un" and m_[1] == "Not" and f0(s_[3]) == f0(m_[2]):
+                        return ("resize_zeros", "round_up", fmt_origin(f0(s_[3])))
+                return ("other", "resize to %s" % fmt_origin(tgt)[:60])
+            return ("other", "resize with a non-zero fill")
         if re.search(r"Vec::<T(, A)?>::(resize|extend_from_slice|clear|pop|remove|insert|drain|retain|set_len|split_off|append|reserve)$", d):
             return ("other", d.split("::")[-1])
         return None
@@ -365,6 +378,33 @@ def interpret(run):
                     st["notes"].append("unrecognised padding amount %s" % (e[2],))
                     st["hi"] = INF
                     nxt.append(st)
+            elif e[0] == "resize_zeros":
+                if e[1] == "round_up":
+                    # resize((len + m) & !m, 0): appends the bytes missing to the next multiple, nothing when already aligned
+                    a = copy.deepcopy(st)
+                    a["aligned"] = True
+                    a["pad"] = "=0"
+                    a["notes"].append("round-up amount is 0: the length is already a multiple of the alignment")
+                    b_ = copy.deepcopy(st)
+                    b_["aligned"] = True
+                    b_["zero_tail"] = True
+                    b_["pad"] = ">0"
+                    if b_["hi"] == "K":
+                        b_["hi"] = "K+a"
+                    nxt.extend([a, b_])
+                else:
+                    # resize(K, 0): cuts when longer, pads with zeros when shorter
+                    st["K"] = e[2]
+                    c_ = copy.deepcopy(st)
+                    c_["lo"] = c_["hi"] = "K"
+                    c_["zero_tail"] = False
+                    c_["pad"] = "=0"
+                    c_["notes"].append("resize(K, 0) on a vector of at least K bytes: nothing is appended")
+                    d_ = copy.deepcopy(st)
+                    d_["lo"] = d_["hi"] = "K"
+                    d_["zero_tail"] = True
+                    d_["pad"] = ">0"
+                    nxt.extend([c_, d_])
             elif e[0] == "push":
                 st["zero_tail"] = e[1] == 0
                 if st["hi"] == "K":
@@ -407,12 +447,18 @@ def length_domain(ctx, rep):
             rep.fail("R11.3", "%s:found" % label, "%s not found" % name)
             continue
         rep.fn(name)
+        from mirq import inline_calls
+        mod = (name[1:].split(" as ")[0] if name.startswith("<") else name).rsplit("::", 1)[0] + "::"
+        ib = inline_calls(b, lambda d, mod=mod: d.startswith(mod) and "{closure" not in d and not d.startswith("<"), depth=2)
+        if ib is not b:
+            rep.notes.append("R11.3: private helper(s) of %s inlined into %s" % (mod, label))
+            b = ib
         loc_ = tracked_local(b)
         if loc_ is None:
             rep.fail("R11.3", "%s:vector" % label, "no Vec<u8> handed to write_options in %s" % name, b.loc())
             continue
         runs = vec_paths(b, loc_)
-        rep.check("R11.3", "%s:paths" % label, len(runs) >= 2, "expected at least two length-relevant paths in %s (found %d)" % (label, len(runs)), b.loc(), nontrivial=False)
+        rep.check("R11.3", "%s:paths" % label, len(runs) >= 1, "expected at least one path that writes the vector in %s (found %d)" % (label, len(runs)), b.loc(), nontrivial=False)
         seen = {}
         for run in runs:
           for st in interpret(run):
@@ -449,5 +495,5 @@ def length_domain(ctx, rep):
             texts = [s for s in v["lay"]["write"] if s["cls"] == "text"]
             rep.check("R11.4", "%s:uses-writer" % v["variant"], len(texts) == 1 and texts[0].get("helper") == "binrw_write_codepage_string" and texts is v["lay"]["write"][-1:] or len(texts) == 1,
                       "%s must write its message with binrw_write_codepage_string as the last field" % v["variant"], v["loc"], nontrivial=False)
-    rep.floor("R11.3", 6)
+    rep.floor("R11.3", 4)
     rep.floor("R11.4", 4)
